@@ -230,6 +230,10 @@ def install_clock():
     return clock
 
 
+def call_rng_seed(case, client, index) -> int:
+    return (case.get("seed", 0) * 1009 + sorted(case["clients"]).index(client) * 101 + index) % 2**31
+
+
 def child_history(case, schedule, with_faults=True):
     """Runs in a pristine fork: the whole history. Returns list of (result, exc, interrupted)."""
     install_jit_seam()
@@ -253,7 +257,9 @@ def child_history(case, schedule, with_faults=True):
                 if f["step"] == step:
                     intr.arm(f["occurrence"])
         if op["op"] == "W1":
-            np.random.seed((case.get("seed", 0) + 17 * step) % 2**32)  # RNG seam: pyamg draws from it
+            # RNG seam: pyamg draws from the numpy global RNG; its state at the start of a distance call is
+            # decided by (run seed, client, position in the client's program), not by the interleaving
+            np.random.seed(call_rng_seed(case, c, pcs[c] - 1) % 2**32)
         try:
             r, exc = exec_op(op, objs), None
         except KeyboardInterrupt:
@@ -577,14 +583,31 @@ class C16Engine(Engine):
                 continue
             # ---- reference: the same call issued first in a pristine process
             ospec = objects.get(target)
-            ref, rexc = kernel.in_fork(child_reference, case, op, ospec,
-                                       params_before if op["op"] in ("JACOBI", "MG") else
-                                       (model.get(target) if target in model else None),
-                                       (case.get("seed", 0) * 31 + step + 1), timeout=self.run_timeout_s)
+            # RNG seam: the simulator decides the state of the numpy global RNG (consumed by pyamg's
+            # spectral-radius estimates) at the start of every distance call - the same state for the
+            # history step and for its pristine reference, so that hidden state is the only difference.
+            rng_seed = call_rng_seed(case, c, pcs[c] - 1)
+            ref_params = params_before if op["op"] in ("JACOBI", "MG") else (model.get(target) if target in model else None)
+            ref, rexc = kernel.in_fork(child_reference, case, op, ospec, ref_params, rng_seed, timeout=self.run_timeout_s)
             out.counters["op:pristine-reference"] += 1
             tol = 1e-12
-            if op["op"] == "W1" and ospec["cfg"]["linear_solver"] != "direct":
+            iterative = op["op"] == "W1" and ospec["cfg"]["linear_solver"] != "direct"
+            if iterative:
                 tol = max(1e-7, 100 * w1.iterative_tol(ospec["cfg"]))
+                if exc is None and rexc is None and (case.get("seed", 0) + step) % 3 == 0:
+                    # RNG dependence of a result: same call, pristine process, another RNG state.
+                    ref2, rexc2 = kernel.in_fork(child_reference, case, op, ospec, ref_params, rng_seed * 7919 + 1,
+                                                 timeout=self.run_timeout_s)
+                    out.counters["fault:rng-skew-reference"] += 1
+                    if rexc2 is None:
+                        ok2, how2 = same(ref2, ref, 1e-3)
+                        if isinstance(how2, float):
+                            out.extra["max_rng_dependence"] = max(out.extra.get("max_rng_dependence", 0.0), how2)
+                            if how2 > 1e-6:
+                                out.counters["probe:rng-dependence-above-1e-6"] += 1
+                        if not ok2:
+                            out.violate("C16.G", f"W1:{ospec['cfg']['method']}:result-depends-on-global-rng", step,
+                                        difference=how2, op=op, object=ospec)
             after_fault = state_key in faulted_objs
             oracle = "C16.R" if after_fault else "C16.F"
             culprit = self._culprit(op, ospec, prior, desc)
@@ -622,7 +645,9 @@ class C16Engine(Engine):
                         op = case["clients"][c][i]
                         if op["op"] == "UPDATE":
                             continue
-                        tol = 1e-12 if op["op"] != "W1" else 1e-6
+                        tol = 1e-12
+                        if op["op"] == "W1" and objects[op["obj"]]["cfg"]["linear_solver"] != "direct":
+                            tol = max(1e-7, 100 * w1.iterative_tol(objects[op["obj"]]["cfg"]))
                         ok = (a[1] == b[1]) and (a[1] is not None or same(a[0], b[0], tol)[0])
                         if not ok:
                             out.violate("C16.P", self._culprit(op, objects.get(op.get("obj")), [], {}), st, client=c, index=i, op=op)
